@@ -459,6 +459,8 @@ fn main() {
         ("{1,{2}}", "{{1,2}}"), ("{b,{b}}", "{{b,b}}"), ("@a(1\n2)", "@a(1,2)"), ("@a(\"x)y\",2)", "@a({\"x)y\",2})"), ("{1\n2}", "{1,2}"), ("@a(\"x,y\")", "@a({\"x,y\"})"),
         ("0.0", "-0.0"), ("{a:0.0}", "{a:-0.0}"), ("-0", "0"), ("0", "-0"), ("-0x0", "0"), ("0e0", "-0.0"), ("@a(-0.0)", "@a(0.0)"), ("1e400", "2e400"), ("-1e400", "1e400"),
         ("{", "{"), ("{", "{ "), ("@", "@"), ("", ""), ("", " "), ("{a:}", "{a:}"), ("{:1}", "{: 1}"),
+        // brace shifts next to absent items and empty records (pointed out by the seeding agent of round thirteen)
+        ("{,{1}}", "{{,1}}"), ("{1,{,}}", "{{1,,}}"), ("{@a{{}}}", "{{@a}}"), ("@a { , { : } }", "@a { { , : } }"),
     ] {
         check(a, b, "corpus", &mut failures);
     }
